@@ -53,4 +53,46 @@ PROPS = {
         'trusted': [],
         'assumptions': ['texts in which the whitespace tag header begins before the appended tag are excluded (known finding)'],
     },
+    'C02': {
+        'level_text': "Theorems on the symbolic data-message machine for all states and all messages: acceptance implies every prescribed check (parse, key-id window, MAC with the pair's receiving key over exactly the fields present, counter above the stored one); the MAC covers every authenticated field; byte-level theorem that the authenticated range is exactly the bytes before the authenticator. The machine is the one the scenario correspondence runs against the Go code every run (mutation catalogue over all fields).",
+        'level_note': 'Unforgeability of HMAC-SHA1 is assumed (a forger without the key cannot produce Mac(key, fields)); correspondence is differential.',
+        'trusted': ['the conversation model is symbolic: DH values are exponent ids, shared secrets unordered pairs, keys (secret, role) terms, a MAC verifies iff it was computed with the same key over the same fields (perfect-cryptography idealisation)', 'internal projections (key ids, list lengths, state names) are read through the verif-tagged hook VerifSnapshot'],
+        'assumptions': ['EUF-CMA of HMAC-SHA1; injectivity of the key derivation'],
+        'targets': ['Corr/Dispatch.vo', 'Proto/Run.vo'],
+    },
+    'C04': {
+        'level_text': 'Proved: mirrored session keys for every pair of distinct DH values, text survives pad/serialise/parse unchanged; the two-party FIFO delivery invariant (fifo_delivery) is work in progress and is currently covered by the correspondence runs (random interleavings, ticks, rotations) plus the sequence oracle.',
+        'level_note': 'partial: the all-interleavings theorem is not yet proved; the evidence lists the theorems actually discharged.',
+        'trusted': ['the conversation model is symbolic: DH values are exponent ids, shared secrets unordered pairs, keys (secret, role) terms, a MAC verifies iff it was computed with the same key over the same fields (perfect-cryptography idealisation)', 'internal projections (key ids, list lengths, state names) are read through the verif-tagged hook VerifSnapshot'],
+        'assumptions': ['DH values drawn are pairwise distinct'],
+        'targets': ['Corr/Dispatch.vo', 'Proto/Run.vo'],
+    },
+    'C05': {
+        'level_text': 'Theorems for all states/messages: an accepted message is refused when it arrives again whatever rotation it caused; counter check monotone per key pair and independent across pairs. Correspondence + replay oracle (immediate, after traffic, out of order, later session) every run.',
+        'level_note': 'replay in a later session relies on new DH values giving different MAC keys (symbolic injectivity).',
+        'trusted': ['the conversation model is symbolic: DH values are exponent ids, shared secrets unordered pairs, keys (secret, role) terms, a MAC verifies iff it was computed with the same key over the same fields (perfect-cryptography idealisation)', 'internal projections (key ids, list lengths, state names) are read through the verif-tagged hook VerifSnapshot'],
+        'assumptions': ['injectivity of key derivation'],
+        'targets': ['Corr/Dispatch.vo', 'Proto/Run.vo'],
+    },
+    'C06': {
+        'level_text': 'Theorem for all conversations/messages: a data message failing any check leaves the conversation record identical (apart from flushing pending replies); the AKE/tag/version branches are covered by the with/without twin-run oracle and the correspondence every run.',
+        'level_note': 'partial: inertness is proved for the data-message branch; other reject classes are checked by twin runs, not yet by theorem.',
+        'trusted': ['the conversation model is symbolic: DH values are exponent ids, shared secrets unordered pairs, keys (secret, role) terms, a MAC verifies iff it was computed with the same key over the same fields (perfect-cryptography idealisation)', 'internal projections (key ids, list lengths, state names) are read through the verif-tagged hook VerifSnapshot'],
+        'assumptions': [],
+        'targets': ['Corr/Dispatch.vo', 'Proto/Run.vo'],
+    },
+    'C09': {
+        'level_text': 'Theorems for all key contexts: a key becomes pending only when a rotation retires its pair, a retired pair is refused by the key lookup, rotations never lose a recorded key, the next data message discloses everything pending. Oracle recomputes all window MAC keys independently (math/big + sha1) and audits every emitted message.',
+        'level_note': 'key material for the oracle is read through the hook VerifKeys; disclosure after a refresh AKE while encrypted is outside the theorems.',
+        'trusted': ['the conversation model is symbolic: DH values are exponent ids, shared secrets unordered pairs, keys (secret, role) terms, a MAC verifies iff it was computed with the same key over the same fields (perfect-cryptography idealisation)', 'internal projections (key ids, list lengths, state names) are read through the verif-tagged hook VerifSnapshot'],
+        'assumptions': ['collision-freedom of the key derivation'],
+        'targets': ['Corr/Dispatch.vo', 'Proto/Run.vo'],
+    },
+    'C19': {
+        'level_text': 'Invariant theorem: counter and MAC-key lists hold at most one entry per key pair of the 2x2 window (<= 4 each) at session start and after every send and every accepted message, for arbitrary (forged, replayed) input; rejected input changes nothing (C06). Growth oracle at n, 2n, 4n on five traffic patterns.',
+        'level_note': 'the bound on pending (undisclosed) keys and on the resend queue is checked by the growth oracle and the correspondence, not yet by theorem.',
+        'trusted': ['the conversation model is symbolic: DH values are exponent ids, shared secrets unordered pairs, keys (secret, role) terms, a MAC verifies iff it was computed with the same key over the same fields (perfect-cryptography idealisation)', 'internal projections (key ids, list lengths, state names) are read through the verif-tagged hook VerifSnapshot'],
+        'assumptions': [],
+        'targets': ['Corr/Dispatch.vo', 'Proto/Run.vo'],
+    },
 }
